@@ -111,8 +111,13 @@ def run_kani(prop, hs, tag, playback=False):
     results = {}
     # group by timeout so --harness-timeout is tight for cheap harnesses
     groups = {}
+    # one cargo-kani invocation per unwindset class: separate invocations run one after the other, so harnesses
+    # of one class share the largest timeout of the class instead of being split by timeout
+    tmax = {}
     for h in hs:
-        groups.setdefault((h.timeout, unwindset(h)), []).append(h)
+        tmax[unwindset(h)] = max(tmax.get(unwindset(h), 0), h.timeout)
+    for h in hs:
+        groups.setdefault((tmax[unwindset(h)], unwindset(h)), []).append(h)
     for gi, ((tmo, uws), grp) in enumerate(sorted(groups.items())):
         names = [h.name for h in grp]
         export = os.path.join(WORK, "%s-%s-%d-%d.json" % (prop, tag, tmo, gi))
